@@ -135,6 +135,39 @@ def handleDers : List String → Option String
       return "|".intercalate (rs.map (fun r => match r with
         | some t => s!"{showList t.1};{showList t.2}"
         | none => "ERR"))
+  -- tangent / normal (normalize=False) on the span(s) the REPAIRED search finds (`curveDersA32R`, `surfaceDersA36R`):
+  -- no empty-span guard (theorems C02.tangent_curve_/tangent_surface_/normal_surface_repaired_on_domain)
+  | ["tancr", rat, p, us, ps, params] => do
+      let p ← p.toNat?; let U ← parseList us; let P ← parsePts ps; let params ← parseList params
+      if !(okKv p P.length U) || params.any (fun u => !(inDomR p P.length U u)) then return "ERR"
+      if params.any (fun u => cWZeroR (rat == "1") p U P u) then return "ERR"
+      return "|".intercalate (params.map (fun u =>
+        let CK := curveDersA32R p (fn U) P u 1
+        let t := tangentCurve (if rat == "1" then ratCurveDers CK else CK)
+        s!"{showList t.1};{showList t.2}"))
+  | ["tansr", rat, pu, pv, uus, uvs, su, sv, ps, us, vs] => do
+      let pu ← pu.toNat?; let pv ← pv.toNat?; let Uu ← parseList uus; let Uv ← parseList uvs
+      let su ← su.toNat?; let sv ← sv.toNat?; let P ← parsePts ps; let us ← parseList us; let vs ← parseList vs
+      if !(okKv pu su Uu && okKv pv sv Uv && P.length == su * sv) || us.length != vs.length
+         || (us.zip vs).any (fun x => !(inDomR pu su Uu x.1 && inDomR pv sv Uv x.2)) then return "ERR"
+      if (us.zip vs).any (fun x => sWZeroR (rat == "1") pu pv Uu Uv su sv P x.1 x.2) then return "ERR"
+      return "|".intercalate ((us.zip vs).map (fun x =>
+        let S := surfaceDersA36R pu pv (fn Uu) (fn Uv) su sv P x.1 x.2 1
+        let t := tangentSurface (if rat == "1" then ratSurfaceDers S 1 else S)
+        s!"{showList t.1};{showList t.2.1};{showList t.2.2}"))
+  | ["nrmsr", rat, pu, pv, uus, uvs, su, sv, ps, us, vs] => do
+      let pu ← pu.toNat?; let pv ← pv.toNat?; let Uu ← parseList uus; let Uv ← parseList uvs
+      let su ← su.toNat?; let sv ← sv.toNat?; let P ← parsePts ps; let us ← parseList us; let vs ← parseList vs
+      if !(okKv pu su Uu && okKv pv sv Uv && P.length == su * sv) || us.length != vs.length
+         || (us.zip vs).any (fun x => !(inDomR pu su Uu x.1 && inDomR pv sv Uv x.2)) then return "ERR"
+      if (us.zip vs).any (fun x => sWZeroR (rat == "1") pu pv Uu Uv su sv P x.1 x.2) then return "ERR"
+      let rs := (us.zip vs).map (fun x =>
+        let S := surfaceDersA36R pu pv (fn Uu) (fn Uv) su sv P x.1 x.2 1
+        normalSurface (if rat == "1" then ratSurfaceDers S 1 else S))
+      if rs.any Option.isNone then return "ERR"
+      return "|".intercalate (rs.map (fun r => match r with
+        | some t => s!"{showList t.1};{showList t.2}"
+        | none => "ERR"))
   -- normalize=True: the magnitudes `vector_magnitude` returned (doubles, exact rationals) are inputs
   | ["tancn", rat, p, us, ps, params, mags] => do
       let p ← p.toNat?; let U ← parseList us; let P ← parsePts ps; let params ← parseList params
